@@ -122,7 +122,7 @@ def simStream (ws : List String) (pre : String) : String :=
   let r := (kvOf ws (pre ++ "r")).getD "read:1000"
   match simWrite (payload seed len) w seed with
   | none => "model-stall"
-  | some stream => simRead stream r (seed + 7)
+  | some stream => simRead stream r (seed + 7) ++ " stopped=none"
 
 /-! ### close / event cases -/
 
@@ -355,6 +355,16 @@ def actOp (ws : List String) (d : DState) : DState × String :=
       | "write" => ev { d with data := (peer, k) :: d.data } .readable k false
       | "drain" => ev { d with writable := (peer, k) :: d.writable } .writable k false
       | "dgram" => ev { d with dgrams := peer :: d.dgrams } .datagramReceived 0 true
+      | "dgrams" =>
+        -- `k` datagrams in one burst: quinn-proto raises `DatagramReceived` ONCE (buffer empty → non-empty)
+        ev { d with dgrams := List.replicate k peer ++ d.dgrams } .datagramReceived 0 true
+      | "drop" =>
+        -- one half of a stream dropped by its owner: the `Drop` clean-up here, and at the peer the event of the
+        -- implicit `stop(0)` (receive half) / `finish()` (send half)
+        let send := (rest.getD 1 "") == "send"
+        let d := setW d side ((getW d side).step (.dropStream send k)).1
+        if send then ev { d with fin := (peer, k) :: d.fin } .readable k false
+        else ev { d with stopped := (peer, k) :: d.stopped } .stopped k false
       | "open" => ev { d with incoming := (peer, dirOf arg) :: d.incoming } .opened (dirOf arg) true
       | "limit" => ev { d with credit := (peer, dirOf arg) :: d.credit } .available (dirOf arg) false
       | "handshake" =>
